@@ -16,13 +16,17 @@ SIZE_TABLES = {
     1: [(1.0, 1.0, 1.0), (2.5, 0.5, 2.5), (0.5, 0.5, 1.0)],
     2: [(1.0, 1.0, 1.0), (1.0, 2.5, 0.5), (2.5, 2.5, 2.5)],
 }
-ALL_SIZES = sorted(set(itertools.product((1.0, 0.5, 2.5), repeat=3)))
+# python-int element sizes (unitx=2 is as legitimate as unitx=2.0)
+INT_SIZES = [(1, 1, 1), (2, 1, 3), (1, 3, 2)]
+for _k in SIZE_TABLES:
+    SIZE_TABLES[_k] = SIZE_TABLES[_k] + [INT_SIZES[0], INT_SIZES[1 + _k % 2]]
+ALL_SIZES = sorted(set(itertools.product((1.0, 0.5, 2.5), repeat=3))) + INT_SIZES
 
 
 def bounds(tier, seed):
     if tier == 'quick':
         return {'max2d': 5, 'max3d': 3, 'sizes': SIZE_TABLES[seed % 3], 'ndof': [1, 2, 3]}
-    return {'max2d': 6, 'max3d': 4, 'sizes': 'all 27 of {1,0.5,2.5}^3', 'ndof': [1, 2, 3]}
+    return {'max2d': 6, 'max3d': 4, 'sizes': 'all 27 of {1,0.5,2.5}^3 and three python-int triples', 'ndof': [1, 2, 3]}
 
 
 def generate(tier, seed):
